@@ -124,6 +124,24 @@ Fixpoint targets_used_old (cur : option R) (dflts : list (option R)) : list (opt
 Definition targets_doc (fwd : option R) (dflts : list (option R)) : list (option R) :=
   map (fun d => match fwd with Some _ => fwd | None => d end) dflts.
 
+(* ================================================================== 1b. custom half kernels for the kernel trainers *)
+(* The kernel trainers (KernelSTDP, DelayAdjustedKernelSTDP, DelayAdjustedKernelSTDPD; model C18/DelayAdj.kernel_fwd, which
+   takes ARBITRARY half kernels) are exercised with user-supplied callables of the family
+       K(t_delta) = c + (a_pos if t_delta >= 0 else a_neg) * exp(-|t_delta| / tc)
+   (tools/impl/c09_impl.two_sided_kernel): constant kernels (a = 0), kernels non-zero on both sides of 0, kernels of
+   mixed sign - so that kernel_post and kernel_pre overlap with opposite signs. *)
+Definition two_sided (ap an c tc x : R) : R :=
+  add N c (mul N (if geb N x (zero N) then ap else an) (exp N (div N (opp N (abs N x)) tc))).
+(* batch reductions of the kernel stream: torch.sum / mean / amax / amin *)
+Inductive kred := KSum | KMean | KAmax | KAmin.
+Definition kreduce (k : kred) (l : list R) : R :=
+  match k with
+  | KSum => tsum N l
+  | KMean => div N (tsum N l) (ofZ N (Z.of_nat (length l)))
+  | KAmax => match l with [] => zero N | x :: t => fold_left (tmax N) t x end
+  | KAmin => match l with [] => zero N | x :: t => fold_left (tmin N) t x end
+  end.
+
 (* ================================================================== 2. Accumulator *)
 (* appending a part: `if value is not None: self._pos.append(value)`; pos = torch.sum(stack(parts), 0) or None *)
 Definition part_add (a x : option R) : option R :=
